@@ -7,6 +7,12 @@
 //!                                                bytes of `dds::encode` sequential vs parallel (pool of THREADS
 //!                                                workers, fragment completion ORDER imposed through the hook)
 //!                                                vs fragment-by-fragment concatenation
+//!   pad FORMAT W H COLOR DITH QUALITY SEED       padding rules of the block / sub-sampled encoders: the image
+//!                                                W x H against the image rounded up to whole blocks whose extra
+//!                                                columns repeat the last pixel of each row and whose extra rows
+//!                                                repeat the FIRST row of the last (partial) row group — tie of
+//!                                                the data-flow model EncRows.lean only, no oracle (not part of
+//!                                                the property)
 //!
 //! The oracle is evaluated on the implementation alone: tiling facts of the fragments and byte equality
 //! of the three outputs.  This module also hosts the helpers shared with C17 (format table, image
@@ -487,6 +493,45 @@ pub fn gen(seed: u64, thorough: bool) -> Vec<String> {
         }
         out.push(format!("geo {f} {w} {h} {} {}", rng.pick(DITHS), rng.pick(QUALS)));
     }
+    // 2b. padding rules of the data-flow model (small images, cheap)
+    for (name, _) in encodable() {
+        let (bw, bh) = block_dims(name);
+        if name == "NV12" || name == "P010" || name == "P016" {
+            continue;
+        }
+        if bw == 1 && bh == 1 && !(name == "R8G8B8A8_UNORM" || name == "B5G6R5_UNORM") {
+            continue; // nothing to pad; two representatives only
+        }
+        let ws: Vec<u64> = if bh == 1 && bw > 1 {
+            // chunk_pixels = 512 / bw * bw: partial blocks at the end of a row that spans several chunks
+            let mut v: Vec<u64> = (1..=19).collect();
+            v.extend([509, 510, 511, 512, 513, 514, 519, 1023, 1024, 1025, 1027]);
+            v
+        } else {
+            vec![1, 2, 3, 4, 5, 6, 7, 8, 9, 11, 13, 16, 18]
+        };
+        let hs: Vec<u64> = if bh == 1 { vec![1, 2, 9] } else { vec![1, 2, 3, 4, 5, 6, 7, 8, 9, 10, 11] };
+        for &w in &ws {
+            for &h in &hs {
+                if !thorough && (w * 7 + h * 3 + name.len() as u64) % 3 != 0 {
+                    continue;
+                }
+                let d = match (w + h) % 3 {
+                    0 => "none",
+                    1 => "all",
+                    _ => "color",
+                };
+                let color = if (w + 2 * h) % 4 == 0 { *rng.pick(COLORS) } else { "rgba8" };
+                out.push(format!("pad {name} {w} {h} {color} {d} fast {}", rng.below(1 << 30)));
+            }
+        }
+    }
+    out.push("pad BC1_UNORM 0 0 rgba8 none fast 1".into());
+    out.push("pad BC1_UNORM 0 5 rgba8 none fast 1".into());
+    out.push("pad NV12 4 4 rgba8 none fast 1".into());
+    out.push("pad BC6H_UF16 4 4 rgba8 none fast 1".into());
+    out.push("pad BC7_UNORM 6 6 rgba8 all normal 7".into());
+    out.push("pad BC3_UNORM 5 7 rgba8 all high 7".into());
     // 3. encodes (interleaved with the cheap geometry cases below so that check.py's chunks balance)
     let cheap = std::mem::take(&mut out);
     let enc_fmts = encodable();
@@ -596,6 +641,7 @@ pub fn run(line: &str) -> Option<(String, Vec<String>)> {
         "sup" if t.len() == 2 => run_sup(t[1]),
         "geo" if t.len() == 6 => run_geo(&t),
         "enc" if t.len() == 11 => run_enc(&t),
+        "pad" if t.len() == 8 => run_pad(&t),
         _ => None,
     }
 }
@@ -725,6 +771,85 @@ fn run_geo(t: &[&str]) -> Option<(String, Vec<String>)> {
         orc.push("geometry depends on parallel / error metric".into());
     }
     Some((format!("geo len={len} frags={}", fmt_frags(&frags)), orc))
+}
+
+/// block width / height of the encoder loops (`block_4x4`, `universal_subsample!(2, ..)`,
+/// `universal_subsample!(8, ..)`), by format name
+pub fn block_dims(name: &str) -> (u64, u64) {
+    if name.starts_with("BC") {
+        (4, 4)
+    } else if name == "R1_UNORM" {
+        (8, 1)
+    } else if matches!(name, "R8G8_B8G8_UNORM" | "G8R8_G8B8_UNORM" | "UYVY" | "YUY2" | "Y210" | "Y216") {
+        (2, 1)
+    } else {
+        (1, 1)
+    }
+}
+
+/// `pad`: W x H against the block-aligned image built with the padding rules the data-flow model states.
+fn run_pad(t: &[&str]) -> Option<(String, Vec<String>)> {
+    let format = match parse_format(t[1]) {
+        Some(f) => f,
+        None => return Some(("bad-case".into(), vec![])),
+    };
+    if format.encoding_support().is_none() || matches!(t[1], "NV12" | "P010" | "P016") {
+        return Some(("bad-case".into(), vec![]));
+    }
+    let (w, h) = (p_u32(t[2])?, p_u32(t[3])?);
+    let color = parse_color(t[4])?;
+    let d = parse_dith(t[5])?;
+    let q = parse_quality(t[6])?;
+    let seed = p_u64(t[7])?;
+    if w as u64 * h as u64 > 1 << 16 {
+        return None;
+    }
+    let (bw, bh) = block_dims(t[1]);
+    let (bw, bh) = (bw as u32, bh as u32);
+    let (w, h) = if w == 0 || h == 0 { (0, 0) } else { (w, h) };
+    let (w2, h2) = (w.div_ceil(bw) * bw, h.div_ceil(bh) * bh);
+    // noise: every pixel differs from its neighbours
+    let mut rng = Rng::new(seed ^ 0x9AD);
+    let bpp = color.bytes_per_pixel() as usize;
+    let mut a = Vec::with_capacity(w as usize * h as usize * bpp);
+    for _ in 0..w as usize * h as usize * color.channels.count() as usize {
+        let v = (rng.next() >> 40) as f32 / (1u64 << 24) as f32;
+        match color.precision {
+            Precision::U8 => a.push((v * 255.0 + 0.5) as u8),
+            Precision::U16 => a.extend_from_slice(&((v * 65535.0 + 0.5) as u16).to_ne_bytes()),
+            Precision::F32 => a.extend_from_slice(&v.to_ne_bytes()),
+        }
+    }
+    let mut b = Vec::with_capacity(w2 as usize * h2 as usize * bpp);
+    for y in 0..h2 {
+        // extra rows: the first row of the last (partial) row group
+        let sy = if y < h { y } else { h / bh * bh };
+        for x in 0..w2 {
+            // extra columns: the last pixel of the row
+            let sx = x.min(w.saturating_sub(1));
+            let o = (sy as usize * w as usize + sx as usize) * bpp;
+            b.extend_from_slice(&a[o..o + bpp]);
+        }
+    }
+    let ia = ImageView::new(&a, Size::new(w, h), color)?;
+    let ib = ImageView::new(&b, Size::new(w2, h2), color)?;
+    let opts = options(d, q, ErrorMetric::Uniform, false);
+    let (mut ea, mut eb) = (Vec::new(), Vec::new());
+    let ra = encode(&mut ea, ia, format, None, &opts);
+    let rb = encode(&mut eb, ib, format, None, &opts);
+    let status = |r: &Result<(), EncodingError>| match r {
+        Ok(()) => "ok".to_string(),
+        Err(e) => format!("err:{}", crate::c17::err_name(e)),
+    };
+    if status(&ra) != status(&rb) {
+        return Some((format!("pad {} vs {}", status(&ra), status(&rb)), vec![]));
+    }
+    let res = if ra.is_ok() {
+        format!("pad ok {}", if ea == eb { "eq".to_string() } else { format!("ne ({})", hexdiff(&ea, &eb)) })
+    } else {
+        format!("pad {}", status(&ra))
+    };
+    Some((res, vec![]))
 }
 
 fn hexdiff(a: &[u8], b: &[u8]) -> String {
